@@ -383,6 +383,60 @@ func pathOf1(v ssa.Value, depth int) string {
 	return ""
 }
 
+// throughLocalStruct: arg is the value of a local struct variable that does not escape (only its fields are stored
+// to and it is loaded whole), tail starts with ".f": the path of the one value stored in field f before the load, and
+// the rest of the tail.
+func throughLocalStruct(arg ssa.Value, tail string) (string, string, bool) {
+	ld, ok := arg.(*ssa.UnOp)
+	if !ok || ld.Op != token.MUL || !strings.HasPrefix(tail, ".") {
+		return "", "", false
+	}
+	al, ok := ld.X.(*ssa.Alloc)
+	if !ok || al.Referrers() == nil || spilledParam(al) != nil {
+		return "", "", false
+	}
+	if _, isStruct := deref(al.Type()).Underlying().(*types.Struct); !isStruct {
+		return "", "", false
+	}
+	field, rest := tail[1:], ""
+	if i := strings.IndexAny(field, ".[*{"); i >= 0 {
+		field, rest = field[:i], field[i:]
+	}
+	var val ssa.Value
+	n := 0
+	for _, ref := range *al.Referrers() {
+		switch x := ref.(type) {
+		case *ssa.FieldAddr:
+			if x.Referrers() == nil {
+				return "", "", false
+			}
+			for _, r2 := range *x.Referrers() {
+				st, isSt := r2.(*ssa.Store)
+				if !isSt || st.Addr != ssa.Value(x) {
+					return "", "", false // the field's address is used for something other than initialising it
+				}
+				if canonFieldName(x.X.Type(), x.Field) == field {
+					n++
+					if instrDominates(st, ld) {
+						val = st.Val
+					}
+				}
+			}
+		case *ssa.UnOp:
+			if x.Op != token.MUL {
+				return "", "", false
+			}
+		case *ssa.DebugRef:
+		default:
+			return "", "", false
+		}
+	}
+	if n != 1 || val == nil {
+		return "", "", false
+	}
+	return pathOf(val), rest, true
+}
+
 // pathMayMode: pathOf answers "where may this point" for joins of one named location with local objects
 // (mayPathOf) instead of giving up. Only used to name what a store may write.
 var pathMayMode bool
@@ -484,6 +538,15 @@ func (E *Effects) of(fn *ssa.Function) []Effect {
 								continue
 							} else if strings.HasPrefix(base, "A:") {
 								k = "?"
+								// a struct literal handed over by value (T{r: p}): the callee's path through field r continues in what was stored there
+								if nb, nt, ok := throughLocalStruct(com.Args[idx], tail); ok {
+									if privatePath(nb) {
+										continue
+									}
+									if nb != "" && !strings.HasPrefix(nb, "A:") {
+										k = nb + nt
+									}
+								}
 							} else {
 								k = base + tail
 							}
